@@ -1,7 +1,9 @@
 /-
 C17 — Payoffs and underlyings are pure functions of the path obeying static identities.
 Property theorems about RpylibModel/Model/Payoff.lean, for all strikes, barriers, thresholds, paths, time grids and
-all histories of operations on one product object.  Helper lemmas: Proofs/Lemmas/C17Basic.lean, C17Real.lean.
+all histories of operations on one product object.  Helper lemmas: Proofs/Lemmas/C17Basic.lean, C17Lists.lean, C17Real.lean.
+Last section: identities of the stateless multi-underlying payoffs (Rainbow, Bond, Cap, Swaption, Ratchet, CDS) — parity,
+sign, monotonicity in strike / first coupon / margin / recovery, bond chain rule, swaption–bond relation, ratchet property.
 
 Not at full strength (kept visible below, listed in harness/props/c17.py NOT_PROVED):
   * `butterfly_nonneg_partial`: the property says "butterfly … non-negative" for all strikes; the constructor accepts
@@ -14,6 +16,7 @@ Not at full strength (kept visible below, listed in harness/props/c17.py NOT_PRO
 -/
 import RpylibModel.Model.Payoff
 import RpylibModel.Proofs.Lemmas.C17Basic
+import RpylibModel.Proofs.Lemmas.C17Lists
 import RpylibModel.Proofs.Lemmas.C17Real
 import Mathlib.Tactic.Linarith
 import Mathlib.Tactic.Ring
@@ -560,5 +563,491 @@ theorem barrier_flag_depends_on_representation :
     pureValue ratExpLog wBarrier .identity wKnock = .vec [0] ∧
     pureValue ratExpLog wBarrier .log ⟨[0, 1], [[0, 2]], [[0, 0]], true⟩ = .vec [2] := by
   decide +kernel
+
+/-! ### Rainbow, Bond, Cap, Swaption, Ratchet, CDS: static identities (payoff.py:324-532) -/
+
+/-- side conditions met by every Libor curve the payoffs are used with: accrual periods `δ ≥ 0`, rates `≥ 0` (then all
+accrual factors `1 + δL` are positive) -/
+def CurveOK (deltas rates : List Rat) : Prop := (∀ d ∈ deltas, 0 ≤ d) ∧ (∀ l ∈ rates, 0 ≤ l)
+
+theorem factorOf_pos (deltas L0 : List Rat) (h : CurveOK deltas L0) : 0 < factorOf deltas L0 := by
+  unfold factorOf
+  exact div_pos one_pos (listProd_pos _ (mem_accr_pos deltas L0 h.1 h.2))
+
+/-- the weights `adj[::-1]` every rate payoff multiplies its cash flows with -/
+def adjRev (deltas L : List Rat) : List Rat := (cumprod (accr deltas L)).reverse
+
+theorem adjRev_nonneg (deltas L : List Rat) (h : CurveOK deltas L) : ∀ y ∈ adjRev deltas L, 0 ≤ y := by
+  intro y hy
+  unfold adjRev at hy
+  rw [List.mem_reverse] at hy
+  exact cumprod_nonneg _ (fun x hx => (mem_accr_pos deltas L h.1 h.2 x hx).le) y hy
+
+/-- the annuity `Σ δ_k adj[::-1][k]` of the swaption is non-negative -/
+theorem annuity_nonneg (deltas L : List Rat) (h : CurveOK deltas L) :
+    0 ≤ listSum (List.zipWith (· * ·) deltas (adjRev deltas L)) :=
+  dot_nonneg deltas _ h.1 (adjRev_nonneg deltas L h)
+
+/-! #### Bond -/
+
+/-- **bond on today's curve is worth 1** (`_factor` normalises by today's accruals) -/
+theorem bond_today (deltas L0 : List Rat) (h : listProd (accr deltas L0) ≠ 0) : bond deltas L0 L0 = 1 := by
+  unfold bond factorOf; field_simp
+
+/-- **bond positive** on admissible curves -/
+theorem bond_pos (deltas L0 L : List Rat) (h0 : CurveOK deltas L0) (h : CurveOK deltas L) : 0 < bond deltas L0 L := by
+  unfold bond
+  exact mul_pos (listProd_pos _ (mem_accr_pos deltas L h.1 h.2)) (factorOf_pos deltas L0 h0)
+
+/-- **bond values chain**: re-basing on an intermediate curve -/
+theorem bond_chain (deltas L0 L1 L2 : List Rat) (h : listProd (accr deltas L1) ≠ 0) :
+    bond deltas L0 L1 * bond deltas L1 L2 = bond deltas L0 L2 := by
+  unfold bond factorOf; field_simp
+
+/-- **bond increasing in every rate** -/
+theorem bond_monotone_rates (deltas L0 L L' : List Rat) (h0 : CurveOK deltas L0) (h : CurveOK deltas L)
+    (hLL : List.Forall₂ (· ≤ ·) L L') : bond deltas L0 L ≤ bond deltas L0 L' := by
+  unfold bond
+  exact mul_le_mul_of_nonneg_right (listProd_accr_le deltas L L' hLL h.1 h.2) (factorOf_pos deltas L0 h0).le
+
+/-! #### Swaption -/
+
+/-- the payer swap value the swaption is written on, in units of the terminal bond -/
+def payerSwap (deltas : List Rat) (K : Rat) (L : List Rat) : Rat :=
+  lastOf (cumprod (accr deltas L)) - 1 - K * listSum (List.zipWith (· * ·) deltas (adjRev deltas L))
+
+theorem swaption_eq (deltas L0 : List Rat) (K : Rat) (payer : Bool) (L : List Rat) :
+    swaption deltas L0 K payer L = rmax ((if payer then 1 else -1) * payerSwap deltas K L) 0 * factorOf deltas L0 := rfl
+
+/-- **payer − receiver = swap** (the swaption analogue of call − put = forward), every curve and strike -/
+theorem swaption_parity (deltas L0 : List Rat) (K : Rat) (L : List Rat) :
+    swaption deltas L0 K true L - swaption deltas L0 K false L = payerSwap deltas K L * factorOf deltas L0 := by
+  rw [swaption_eq, swaption_eq]
+  simp only [Bool.false_eq_true, if_true, if_false]
+  have e : ∀ x : Rat, rmax (1 * x) 0 - rmax (-1 * x) 0 = x := by
+    intro x; unfold rmax; split_ifs <;> linarith
+  rw [← sub_mul, e]
+
+/-- **swaption non-negative** -/
+theorem swaption_nonneg (deltas L0 : List Rat) (K : Rat) (payer : Bool) (L : List Rat) (h0 : CurveOK deltas L0) :
+    0 ≤ swaption deltas L0 K payer L := by
+  rw [swaption_eq]
+  exact mul_nonneg (rmax_nonneg_right _) (factorOf_pos deltas L0 h0).le
+
+/-- **payer swaption decreasing, receiver swaption increasing in the strike** -/
+theorem swaption_monotone_strike (deltas L0 : List Rat) (K K' : Rat) (L : List Rat) (hK : K ≤ K')
+    (h0 : CurveOK deltas L0) (h : CurveOK deltas L) :
+    swaption deltas L0 K' true L ≤ swaption deltas L0 K true L ∧
+    swaption deltas L0 K false L ≤ swaption deltas L0 K' false L := by
+  have hA := annuity_nonneg deltas L h
+  have hf := (factorOf_pos deltas L0 h0).le
+  have hs : payerSwap deltas K' L ≤ payerSwap deltas K L := by
+    unfold payerSwap; nlinarith
+  constructor
+  · rw [swaption_eq, swaption_eq]
+    apply mul_le_mul_of_nonneg_right _ hf
+    apply rmax_mono_left; simp only [if_true]; linarith
+  · rw [swaption_eq, swaption_eq]
+    apply mul_le_mul_of_nonneg_right _ hf
+    apply rmax_mono_left; simp only [Bool.false_eq_true, if_false]; linarith
+
+/-- **swaption / bond relation**: at strike 0 the payer swaption pays `(bond − today's discount factor)⁺` -/
+theorem swaption_zero_strike_bond (deltas L0 L : List Rat) (h0 : CurveOK deltas L0) (hne : accr deltas L ≠ []) :
+    swaption deltas L0 0 true L = rmax (bond deltas L0 L - factorOf deltas L0) 0 := by
+  rw [swaption_eq, rmax_mul_nonneg _ _ (factorOf_pos deltas L0 h0).le]
+  unfold payerSwap bond
+  rw [lastOf_cumprod _ hne]
+  congr 1
+  simp only [if_true]; ring
+
+/-! #### Cap -/
+
+theorem cap_eq (deltas L0 : List Rat) (K : Rat) (L : List Rat) :
+    cap deltas L0 K L =
+      listSum (List.zipWith (· * ·) (List.zipWith (fun d l => d * rmax (l - K) 0) deltas L) (adjRev deltas L))
+        * factorOf deltas L0 := rfl
+
+theorem caplet_intrinsic_nonneg (deltas L : List Rat) (K : Rat) (hd : ∀ d ∈ deltas, 0 ≤ d) :
+    ∀ x ∈ List.zipWith (fun d l => d * rmax (l - K) 0) deltas L, 0 ≤ x := by
+  induction deltas generalizing L with
+  | nil => intro x hx; simp at hx
+  | cons d t ih =>
+    cases L with
+    | nil => intro x hx; simp at hx
+    | cons l s =>
+      intro x hx
+      simp only [List.zipWith_cons_cons, List.mem_cons] at hx
+      rcases hx with rfl | hx
+      · exact mul_nonneg (hd d (by simp)) (rmax_nonneg_right _)
+      · exact ih s (fun d' hd' => hd d' (by simp [hd'])) x hx
+
+/-- **cap non-negative** -/
+theorem cap_nonneg (deltas L0 : List Rat) (K : Rat) (L : List Rat) (h0 : CurveOK deltas L0) (h : CurveOK deltas L) :
+    0 ≤ cap deltas L0 K L := by
+  rw [cap_eq]
+  exact mul_nonneg (dot_nonneg _ _ (caplet_intrinsic_nonneg deltas L K h.1) (adjRev_nonneg deltas L h))
+    (factorOf_pos deltas L0 h0).le
+
+/-- **cap decreasing in the strike** -/
+theorem cap_antitone_strike (deltas L0 : List Rat) (K K' : Rat) (L : List Rat) (hK : K ≤ K')
+    (h0 : CurveOK deltas L0) (h : CurveOK deltas L) : cap deltas L0 K' L ≤ cap deltas L0 K L := by
+  rw [cap_eq, cap_eq]
+  apply mul_le_mul_of_nonneg_right _ (factorOf_pos deltas L0 h0).le
+  apply dot_zipWith_le _ _ deltas L _ _ (adjRev_nonneg deltas L h)
+  intro d hd l
+  exact mul_le_mul_of_nonneg_left (rmax_mono_left _ _ (by linarith)) (h.1 d hd)
+
+/-- **cap worthless when no rate fixes above the strike** -/
+theorem cap_zero_of_rates_le (deltas L0 : List Rat) (K : Rat) (L : List Rat) (hL : ∀ l ∈ L, l ≤ K) :
+    cap deltas L0 K L = 0 := by
+  rw [cap_eq]
+  have hz : ∀ x ∈ List.zipWith (fun d l => d * rmax (l - K) 0) deltas L, x = 0 := by
+    induction deltas generalizing L with
+    | nil => intro x hx; simp at hx
+    | cons d t ih =>
+      cases L with
+      | nil => intro x hx; simp at hx
+      | cons l s =>
+        intro x hx
+        simp only [List.zipWith_cons_cons, List.mem_cons] at hx
+        rcases hx with rfl | hx
+        · have : ¬ (l - K < 0) ∨ l - K < 0 := by tauto
+          have hl := hL l (by simp)
+          unfold rmax
+          split_ifs with h1
+          · simp
+          · have : l - K = 0 := by linarith [not_lt.mp h1]
+            rw [this]; simp
+        · exact ih s (fun l' hl' => hL l' (by simp [hl'])) x hx
+  have : ∀ (a b : List Rat), (∀ x ∈ a, x = 0) → listSum (List.zipWith (· * ·) a b) = 0 := by
+    intro a
+    induction a with
+    | nil => intro b _; simp [listSum_nil]
+    | cons x t ih =>
+      intro b ha
+      cases b with
+      | nil => simp [listSum_nil]
+      | cons y s =>
+        simp only [List.zipWith_cons_cons, listSum_cons]
+        rw [ha x (by simp), ih s (fun z hz => ha z (by simp [hz]))]; simp
+  rw [this _ _ hz]; simp
+
+/-- the caplets of the cap: `δ_k (L_k − K)⁺ · adj[::-1][k] · _factor`, one per period -/
+def capletTerms (deltas L0 : List Rat) (K : Rat) (L : List Rat) : List Rat :=
+  (List.zipWith (· * ·) (List.zipWith (fun d l => d * rmax (l - K) 0) deltas L) (adjRev deltas L)).map
+    (· * factorOf deltas L0)
+
+/-- **cap = sum of its caplets, each of them non-negative** (a one-period cap is its single caplet: `cap_single_period`) -/
+theorem cap_eq_sum_caplets (deltas L0 : List Rat) (K : Rat) (L : List Rat) :
+    cap deltas L0 K L = listSum (capletTerms deltas L0 K L) ∧
+    (CurveOK deltas L0 → CurveOK deltas L → ∀ x ∈ capletTerms deltas L0 K L, 0 ≤ x) := by
+  refine ⟨by rw [cap_eq]; unfold capletTerms; rw [listSum_map_mul], ?_⟩
+  intro h0 h x hx
+  unfold capletTerms at hx
+  obtain ⟨y, hy, rfl⟩ := List.mem_map.mp hx
+  exact mul_nonneg (zipWith_mul_nonneg _ _ (caplet_intrinsic_nonneg deltas L K h.1) (adjRev_nonneg deltas L h) y hy)
+    (factorOf_pos deltas L0 h0).le
+
+/-- **a one-period cap is a caplet**: `δ (L − K)⁺ (1 + δL) / (1 + δL₀)` -/
+theorem cap_single_period (d l0 K l : Rat) :
+    cap [d] [l0] K [l] = d * rmax (l - K) 0 * (1 + d * l) / (1 + d * l0) := by
+  simp [cap, factorOf, accr, cumprod, cumprodFrom, listSum, listProd]
+  ring
+
+/-! #### Rainbow -/
+
+/-- the weighted basket the rainbow option is written on: flipped weights against the ascending performances -/
+def rainbowBasket (w u : List Rat) : Rat := listSum (List.zipWith (· * ·) w.reverse (u.mergeSort leB))
+
+theorem rainbow_eq (w : List Rat) (K : Rat) (c : Bool) (u : List Rat) :
+    rainbow w K c u = rmax 0 ((if c then 1 else -1) * (rainbowBasket w u - K)) := rfl
+
+/-- **rainbow non-negative** -/
+theorem rainbow_nonneg (w : List Rat) (K : Rat) (c : Bool) (u : List Rat) : 0 ≤ rainbow w K c u := by
+  rw [rainbow_eq]; exact rmax_nonneg_left _
+
+/-- **rainbow call − put = basket − strike** -/
+theorem rainbow_parity (w : List Rat) (K : Rat) (u : List Rat) :
+    rainbow w K true u - rainbow w K false u = rainbowBasket w u - K := by
+  rw [rainbow_eq, rainbow_eq]
+  simp only [Bool.false_eq_true, if_true, if_false]
+  unfold rmax
+  split_ifs <;> linarith
+
+/-- **rainbow call decreasing, put increasing in the strike** -/
+theorem rainbow_monotone_strike (w : List Rat) (K K' : Rat) (u : List Rat) (hK : K ≤ K') :
+    rainbow w K' true u ≤ rainbow w K true u ∧ rainbow w K false u ≤ rainbow w K' false u := by
+  rw [rainbow_eq, rainbow_eq, rainbow_eq, rainbow_eq]
+  simp only [Bool.false_eq_true, if_true, if_false]
+  unfold rmax
+  constructor <;> split_ifs <;> linarith
+
+theorem leB_trans (a b c : Rat) (h1 : leB a b = true) (h2 : leB b c = true) : leB a c = true := by
+  simp only [leB, decide_eq_true_eq] at *; exact le_trans h1 h2
+theorem leB_total (a b : Rat) : (leB a b || leB b a) = true := by
+  simp only [leB, Bool.or_eq_true, decide_eq_true_eq]; exact le_total a b
+
+/-- **rainbow is symmetric in the underlyings**: it depends on the performances only through their multiset -/
+theorem rainbow_perm (w : List Rat) (K : Rat) (c : Bool) (u u' : List Rat) (h : u.Perm u') :
+    rainbow w K c u = rainbow w K c u' := by
+  have hs : u.mergeSort leB = u'.mergeSort leB := by
+    have p : (u.mergeSort leB).Perm (u'.mergeSort leB) :=
+      (List.mergeSort_perm u leB).trans (h.trans (List.mergeSort_perm u' leB).symm)
+    have s1 := List.pairwise_mergeSort leB_trans leB_total u
+    have s2 := List.pairwise_mergeSort leB_trans leB_total u'
+    refine List.Perm.eq_of_pairwise (le := fun a b => leB a b = true) ?_ s1 s2 p
+    intro a b _ _ h1 h2
+    simp only [leB, decide_eq_true_eq] at h1 h2
+    exact le_antisymm h1 h2
+  rw [rainbow_eq, rainbow_eq]; unfold rainbowBasket; rw [hs]
+
+/-- a one-asset rainbow with weight 1 is the vanilla option -/
+theorem rainbow_single (K : Rat) (c : Bool) (u : Rat) : rainbow [1] K c [u] = vanilla c u K := by
+  simp [rainbow, vanilla, listSum]
+  unfold rmax
+  cases c <;> simp <;> split_ifs <;> linarith
+
+/-- **rainbow positively homogeneous**: scaling performances and strike by `c > 0` scales the payoff -/
+theorem rainbow_homogeneous (w : List Rat) (K c : Rat) (cl : Bool) (u : List Rat) (hc : 0 < c) :
+    rainbow w (c * K) cl (u.map (c * ·)) = c * rainbow w K cl u := by
+  have hs : (u.map (c * ·)).mergeSort leB = (u.mergeSort leB).map (c * ·) := by
+    symm
+    apply List.map_mergeSort
+    intro a _ b _
+    simp only [leB, decide_eq_decide]
+    constructor
+    · intro h; exact mul_le_mul_of_nonneg_left h hc.le
+    · intro h; exact le_of_mul_le_mul_left h hc
+  rw [rainbow_eq, rainbow_eq]
+  unfold rainbowBasket
+  rw [hs, dot_map_mul]
+  set v := listSum (List.zipWith (· * ·) w.reverse (u.mergeSort leB))
+  have e : (if cl then (1 : Rat) else -1) * (c * v - c * K) = c * ((if cl then 1 else -1) * (v - K)) := by ring
+  rw [e]
+  generalize (if cl then (1 : Rat) else -1) * (v - K) = x
+  unfold rmax
+  by_cases h : 0 < x
+  · rw [if_pos h, if_pos (mul_pos hc h)]
+  · rw [if_neg h, if_neg (not_lt.mpr (mul_nonpos_of_nonneg_of_nonpos hc.le (not_lt.mp h)))]; simp
+
+/-! #### Ratchet -/
+
+/-- the ratchet property of a coupon sequence started at `p`: every coupon is at least the previous one and exceeds it by
+at most the increment -/
+def Ratcheting (inc : Rat) : Rat → List Rat → Prop
+  | _, [] => True
+  | p, c :: cs => p ≤ c ∧ c ≤ p + inc ∧ Ratcheting inc c cs
+
+/-- **the coupons of the structured leg ratchet** (non-negative increment), every curve, spread and first coupon -/
+theorem ratchetCoupons_ratcheting (spread inc : Rat) (hinc : 0 ≤ inc) (L : List Rat) :
+    ∀ (ds : List Rat) (cp : Rat), Ratcheting inc cp (ratchetCoupons spread inc cp L ds) := by
+  induction L with
+  | nil => intro ds cp; simp [ratchetCoupons, Ratcheting]
+  | cons l ls ih =>
+    intro ds cp
+    cases ds with
+    | nil => simp [ratchetCoupons, Ratcheting]
+    | cons d ds =>
+      simp only [ratchetCoupons, Ratcheting]
+      refine ⟨?_, ?_, ih ds _⟩
+      · unfold rmax; split_ifs <;> linarith
+      · unfold rmax; split_ifs <;> linarith
+
+/-- with a negative increment (the constructor accepts it) the coupons fall instead: hypothesis `0 ≤ inc` is needed -/
+example : ratchetCoupons 0 (-1) 1 [0] [1] = [0] := by decide +kernel
+
+theorem Ratcheting.bounds (inc : Rat) (hinc : 0 ≤ inc) (cs : List Rat) : ∀ p, Ratcheting inc p cs →
+    ∀ c ∈ cs, p ≤ c ∧ c ≤ p + cs.length * inc := by
+  induction cs with
+  | nil => intro p _ c hc; simp at hc
+  | cons x t ih =>
+    intro p h c hc
+    obtain ⟨h1, h2, h3⟩ := h
+    have hl : ((x :: t).length : Rat) = t.length + 1 := by simp
+    rw [hl]
+    have ht : (0 : Rat) ≤ t.length * inc := mul_nonneg (by positivity) hinc
+    rcases List.mem_cons.mp hc with rfl | hc
+    · constructor
+      · exact h1
+      · nlinarith
+    · obtain ⟨g1, g2⟩ := ih x h3 c hc
+      constructor
+      · linarith
+      · nlinarith
+
+/-- **every coupon lies between the first coupon and first + n·increment** -/
+theorem ratchetCoupons_bounds (spread inc first : Rat) (hinc : 0 ≤ inc) (L ds : List Rat) :
+    ∀ c ∈ ratchetCoupons spread inc first L ds,
+      first ≤ c ∧ c ≤ first + (ratchetCoupons spread inc first L ds).length * inc :=
+  Ratcheting.bounds inc hinc _ first (ratchetCoupons_ratcheting spread inc hinc L ds first)
+
+theorem ratchetCoupons_length (spread inc : Rat) (L : List Rat) :
+    ∀ (ds : List Rat) (cp : Rat), (ratchetCoupons spread inc cp L ds).length = min ds.length L.length := by
+  induction L with
+  | nil => intro ds cp; simp [ratchetCoupons]
+  | cons l ls ih =>
+    intro ds cp
+    cases ds with
+    | nil => simp [ratchetCoupons]
+    | cons d ds => simp [ratchetCoupons, ih ds]
+
+/-- the coupons are non-decreasing functions of the first coupon -/
+theorem ratchetCoupons_mono_first (spread inc : Rat) (L : List Rat) :
+    ∀ (ds : List Rat) (cp cp' : Rat), cp ≤ cp' →
+      List.Forall₂ (· ≤ ·) (ratchetCoupons spread inc cp L ds) (ratchetCoupons spread inc cp' L ds) := by
+  induction L with
+  | nil => intro ds cp cp' _; simp [ratchetCoupons]
+  | cons l ls ih =>
+    intro ds cp cp' h
+    cases ds with
+    | nil => simp [ratchetCoupons]
+    | cons d ds =>
+      simp only [ratchetCoupons]
+      have hc : (let m := rmax (d * (l + spread)) cp; if cp + inc < m then cp + inc else m)
+          ≤ (let m := rmax (d * (l + spread)) cp'; if cp' + inc < m then cp' + inc else m) := by
+        simp only; unfold rmax; split_ifs <;> linarith
+      exact List.Forall₂.cons hc (ih ds _ _ hc)
+
+theorem ratchet_eq (deltas : List Rat) (g m spread inc first : Rat) (L : List Rat) :
+    ratchet deltas g m spread inc first L =
+      listSum (List.zipWith (· * ·) (ratchetCoupons spread inc first L deltas) (adjRev deltas L))
+        - listSum (List.zipWith (· * ·) (List.zipWith (fun d l => d * (g * l + m)) deltas L) (adjRev deltas L)) := by
+  unfold ratchet adjRev
+  simp only
+  rw [dot_sub]
+  rw [ratchetCoupons_length]; simp
+
+/-- **structured leg − funding leg**: the funding leg `Σ δ(gL + m)·adj` enters linearly, it is the only place where
+gearing and margin occur -/
+theorem ratchet_funding_split (deltas : List Rat) (g m spread inc first : Rat) (L : List Rat) :
+    ratchet deltas g m spread inc first L = ratchet deltas 0 0 spread inc first L
+      - listSum (List.zipWith (· * ·) (List.zipWith (fun d l => d * (g * l + m)) deltas L) (adjRev deltas L)) := by
+  rw [ratchet_eq, ratchet_eq deltas 0 0]
+  have : ∀ (ds ls b : List Rat), listSum (List.zipWith (· * ·) (List.zipWith (fun d l => d * (0 * l + 0)) ds ls) b) = 0 := by
+    intro ds
+    induction ds with
+    | nil => intro ls b; simp [listSum_nil]
+    | cons d t ih =>
+      intro ls b
+      cases ls with
+      | nil => simp [listSum_nil]
+      | cons l s =>
+        cases b with
+        | nil => simp [listSum_nil]
+        | cons y r => simp only [List.zipWith_cons_cons, listSum_cons]; rw [ih s r]; ring
+  rw [this]; ring
+
+/-- **ratchet increasing in the first coupon**, decreasing in the funding margin -/
+theorem ratchet_monotone (deltas : List Rat) (g m m' spread inc first first' : Rat) (L : List Rat)
+    (h : CurveOK deltas L) (hf : first ≤ first') (hm : m ≤ m') :
+    ratchet deltas g m spread inc first L ≤ ratchet deltas g m spread inc first' L ∧
+    ratchet deltas g m' spread inc first L ≤ ratchet deltas g m spread inc first L := by
+  have ha := adjRev_nonneg deltas L h
+  constructor
+  · rw [ratchet_eq, ratchet_eq]
+    have := dot_le_of_forall₂ _ _ (ratchetCoupons_mono_first spread inc L deltas first first' hf) _ ha
+    linarith
+  · rw [ratchet_eq, ratchet_eq]
+    have := dot_zipWith_le (fun d l => d * (g * l + m')) (fun d l => d * (g * l + m)) deltas L _
+      (fun d hd l => mul_le_mul_of_nonneg_left (by linarith) (h.1 d hd)) ha
+    linarith
+
+/-- Σ cᵢ aᵢ between p·Σaᵢ and q·Σaᵢ for p ≤ cᵢ ≤ q, aᵢ ≥ 0, equal lengths -/
+theorem dot_between (c : List Rat) : ∀ (a : List Rat) (p q : Rat), c.length = a.length → (∀ x ∈ c, p ≤ x ∧ x ≤ q) →
+    (∀ y ∈ a, 0 ≤ y) → p * listSum a ≤ listSum (List.zipWith (· * ·) c a) ∧
+      listSum (List.zipWith (· * ·) c a) ≤ q * listSum a := by
+  induction c with
+  | nil => intro a p q h _ _; cases a with
+    | nil => simp [listSum_nil]
+    | cons _ _ => simp at h
+  | cons x t ih =>
+    intro a p q h hc ha
+    cases a with
+    | nil => simp at h
+    | cons y r =>
+      simp only [List.zipWith_cons_cons, listSum_cons]
+      obtain ⟨i1, i2⟩ := ih r p q (by simpa using h) (fun z hz => hc z (by simp [hz])) (fun z hz => ha z (by simp [hz]))
+      obtain ⟨b1, b2⟩ := hc x (by simp)
+      have hy := ha y (by simp)
+      constructor <;> nlinarith
+
+/-- **bounds of the structured leg** (gearing and margin 0, one rate per period): between `first · Σ adj` and
+`(first + n·increment) · Σ adj` -/
+theorem ratchet_structured_bounds (deltas : List Rat) (spread inc first : Rat) (L : List Rat) (h : CurveOK deltas L)
+    (hinc : 0 ≤ inc) (hlen : deltas.length = L.length) :
+    first * listSum (adjRev deltas L) ≤ ratchet deltas 0 0 spread inc first L ∧
+    ratchet deltas 0 0 spread inc first L ≤ (first + L.length * inc) * listSum (adjRev deltas L) := by
+  have hz := ratchet_funding_split deltas 0 0 spread inc first L
+  rw [ratchet_eq] at hz ⊢
+  have hl : (ratchetCoupons spread inc first L deltas).length = L.length := by
+    rw [ratchetCoupons_length]; simp [hlen]
+  have hal : (adjRev deltas L).length = L.length := by
+    unfold adjRev cumprod accr; simp [cumprodFrom_length, hlen]
+  have hb := ratchetCoupons_bounds spread inc first hinc L deltas
+  rw [hl] at hb
+  have := dot_between _ (adjRev deltas L) first (first + L.length * inc) (by rw [hl, hal]) hb (adjRev_nonneg deltas L h)
+  constructor <;> linarith [this.1, this.2]
+
+/-! #### CDS (one path) -/
+
+/-- the premium annuity of one path: `(1 − df(min(T,τ)))/r/df(T)` -/
+def cdsAnnuity (T r d0 d1 : Rat) (tau : Option Rat) : Rat :=
+  let tmin := match tau with | none => T | some t => if T < t then T else t
+  (1 - (d0 + d1 * tmin)) / r / (d0 + d1 * T)
+
+/-- **the CDS payoff is affine in the spread** with slope minus the premium annuity -/
+theorem cds_affine_spread (R s T r d0 d1 : Rat) (tau : Option Rat) :
+    cds R s T r d0 d1 tau = cds R 0 T r d0 d1 tau - s * cdsAnnuity T r d0 d1 tau := by
+  cases tau with
+  | none => simp only [cds, cdsAnnuity]; ring
+  | some t => by_cases h : T < t <;> simp only [cds, cdsAnnuity, h] <;> ring
+
+/-- **a default after maturity is no default** -/
+theorem cds_after_maturity (R s T r d0 d1 t : Rat) (h : T < t) :
+    cds R s T r d0 d1 (some t) = cds R s T r d0 d1 none := by
+  simp [cds, h]
+
+/-- **protection leg**: with zero spread the payoff is `(1−R)·df(τ)/df(T)` for a default up to maturity and 0 after -/
+theorem cds_protection (R T r d0 d1 : Rat) (tau : Option Rat) :
+    cds R 0 T r d0 d1 tau = match tau with
+      | none => 0
+      | some t => if T < t then 0 else (1 - R) * (d0 + d1 * t) / (d0 + d1 * T) := by
+  cases tau with
+  | none => simp [cds]
+  | some t => by_cases h : T < t <;> simp [cds, h]
+
+/-- **protection decreasing in the recovery rate** (discount factors of equal sign) -/
+theorem cds_antitone_recovery (R R' s T r d0 d1 : Rat) (tau : Option Rat) (hR : R ≤ R')
+    (hdf : ∀ t, tau = some t → 0 ≤ (d0 + d1 * t) / (d0 + d1 * T)) :
+    cds R' s T r d0 d1 tau ≤ cds R s T r d0 d1 tau := by
+  rw [cds_affine_spread R', cds_affine_spread R, cds_protection, cds_protection]
+  cases tau with
+  | none => simp
+  | some t =>
+    by_cases h : T < t
+    · simp [h]
+    · simp only [h, if_false]
+      have := hdf t rfl
+      have e : ∀ x : Rat, (1 - x) * (d0 + d1 * t) / (d0 + d1 * T) = (1 - x) * ((d0 + d1 * t) / (d0 + d1 * T)) := by
+        intro x; ring
+      rw [e, e]; nlinarith
+
+/-! #### non-vacuity: an admissible curve, and the literal values the harness replays on the implementation -/
+
+example : CurveOK [1/2, 1] [1/32, 1/16] ∧ CurveOK [1/2, 1] [1/16, 1/8] := by
+  refine ⟨⟨?_, ?_⟩, ⟨?_, ?_⟩⟩ <;> intro x hx <;> simp at hx <;> rcases hx with rfl | rfl <;> norm_num
+
+/-- numerator / denominator of a value (literal denominators above a few hundred do not reduce in the kernel once the
+field instances of Mathlib are in scope) -/
+def nd (q : Rat) : Int × Nat := (q.num, q.den)
+
+example : nd (bond [1/2, 1] [1/32, 1/16] [1/16, 1/8]) = (1188, 1105) := by decide +kernel
+example : nd (cap [1/2, 1] [1/32, 1/16] (1/16) [1/16, 1/8]) = (66, 1105) := by decide +kernel
+example : nd (swaption [1/2, 1] [1/32, 1/16] (1/16) true [1/16, 1/8]) = (487, 8840) := by decide +kernel
+example : swaption [1/2, 1] [1/32, 1/16] (1/16) false [1/16, 1/8] = 0 := by decide +kernel
+example : nd (ratchet [1/2, 1] 1 (1/16) (1/8) (1/16) (1/4) [1/16, 1/8]) = (1155, 4096) := by decide +kernel
+example : rainbow [1] 1 true [3/2] = 1/2 := by rw [rainbow_single]; decide +kernel
+example : nd (cds (1/4) (1/64) 2 (1/32) 1 (-1/32) (some 1)) = (91, 120) ∧
+    nd (cds (1/4) (1/64) 2 (1/32) 1 (-1/32) none) = (-1, 30) := by decide +kernel
 
 end Rpylib.Payoff
